@@ -39,6 +39,7 @@ type Contract struct {
 	PanicsWhen []*Clause
 	Replay    string
 	Trusted   bool // from a spec file (assumption), not checked
+	Synth     bool // synthesised from a type invariant only
 	Iterates  string // name of callback parameter: callee calls it 0..n times
 	File      string
 	Line      int
@@ -66,6 +67,7 @@ type SpecFunc struct {
 	Ret    string
 	Def    *Clause // optional definition
 	Ghost  bool    // ghost heap field: name(ref) reads region G:name
+	Opaque bool    // uninterpreted symbol + definitional axiom (kept folded unless the axiom fires)
 	Pkg    string
 	File   string
 }
@@ -78,7 +80,13 @@ type Lemma struct {
 	Using  []string // names of contracts whose posts are instantiated (informational)
 }
 
+type TypeInv struct {
+	Pkg, Type, Binder string
+	C                 *Clause
+}
+
 type ContractSet struct {
+	TypeInvs []*TypeInv
 	Funcs   map[string]*Contract // key: pkgpath + "::" + func key, or qualified name for specs
 	Specs   map[string]*SpecFunc
 	Lemmas  []*Lemma
@@ -91,9 +99,35 @@ func NewContractSet() *ContractSet {
 	return &ContractSet{Funcs: map[string]*Contract{}, Specs: map[string]*SpecFunc{}, Imports: map[string]map[string]string{}, Expect: map[string]int{}}
 }
 
+var typeInvRe = regexp.MustCompile(`^(\S+)\s+invariant\s+([A-Za-z_][A-Za-z0-9_]*):\s*(.*)$`)
+
+func renameIdent(e *Expr, from, to string) *Expr {
+	if e == nil {
+		return nil
+	}
+	n := *e
+	if n.Op == "id" && n.S == from {
+		n.S = to
+	}
+	for _, v := range n.Vars {
+		if v.Name == from {
+			return &n // shadowed
+		}
+	}
+	n.Args = make([]*Expr, len(e.Args))
+	for i, a := range e.Args {
+		n.Args[i] = renameIdent(a, from, to)
+	}
+	n.Trig = make([]*Expr, len(e.Trig))
+	for i, a := range e.Trig {
+		n.Trig[i] = renameIdent(a, from, to)
+	}
+	return &n
+}
+
 var assertRe = regexp.MustCompile(`^at\s+([^\s#]+)#(\d+)\s+(.*)$`)
 var labelRe = regexp.MustCompile(`^([A-Za-z_][A-Za-z0-9_.\-]*):(\s|$)`)
-var specFuncRe = regexp.MustCompile(`^spec\s+(func|ghost)\s+([A-Za-z_][A-Za-z0-9_]*)\s*\((.*?)\)\s*([^=]*?)\s*(=\s*(.*))?$`)
+var specFuncRe = regexp.MustCompile(`^spec\s+(func|ghost|opaque)\s+([A-Za-z_][A-Za-z0-9_]*)\s*\((.*?)\)\s*([^=]*?)\s*(=\s*(.*))?$`)
 
 func splitParams(s string) []BVar {
 	var out []BVar
@@ -216,11 +250,23 @@ func (cs *ContractSet) LoadFile(path, pkg string, trusted bool) error {
 				fail(p.line, "bad spec func: %s", p.text)
 				return
 			}
-			sf := &SpecFunc{Name: m[2], Params: splitParams(m[3]), Ret: strings.TrimSpace(m[4]), Pkg: pkg, File: path, Ghost: m[1] == "ghost"}
+			sf := &SpecFunc{Name: m[2], Params: splitParams(m[3]), Ret: strings.TrimSpace(m[4]), Pkg: pkg, File: path, Ghost: m[1] == "ghost", Opaque: m[1] == "opaque"}
 			if m[6] != "" {
 				sf.Def = mk(m[6], p.line, false)
 			}
 			cs.Specs[sf.Name] = sf
+		case "type":
+			// type *T invariant x: expr
+			m := typeInvRe.FindStringSubmatch(rest)
+			if m == nil {
+				fail(p.line, "bad type invariant (want: type *T invariant x: expr)")
+				return
+			}
+			cl := mk(m[3], p.line, false)
+			if cl.E != nil {
+				cl.E = renameIdent(cl.E, m[2], "$recv")
+			}
+			cs.TypeInvs = append(cs.TypeInvs, &TypeInv{Pkg: pkg, Type: m[1], Binder: m[2], C: cl})
 		case "axiom", "lemma":
 			c := mk(rest, p.line, true)
 			if c.Label == "" {
